@@ -974,7 +974,11 @@ class PipeOps(FullOps):
                         caps_ += [int(pl.const_value()) for pl in d_[1:] if isinstance(pl, Poly) and pl.const_value() is not None]
             self.pev("vmap", node, kwargs={k: repr(v) for k, v in kwargs.items()}, chunk_given=ct_ is not None, chunk_const=self.const_int(cs_) if ct_ is not None else None,
                      chunk_syms=syms_, chunk_caps=caps_, chunk_is_dim=bool(ct_ is not None and ct_.note == "dim" and ct_.poly is not None and len(ct_.poly.symbols()) == 1))
-            return VmapV(args[0])
+            vv_ = VmapV(args[0])
+            if self.inst is not None:
+                self._vmap_chunks = getattr(self, "_vmap_chunks", {})
+                self._vmap_chunks[id(vv_)] = (vv_, self.const_int(cs_) if ct_ is not None else None, ct_ is not None)
+            return vv_
         dk_ = kwargs.get("dtype")
         if not any(is_opaque(x) for x in flat) and fn in ("zeros", "ones", "empty", "full") and isinstance(dk_, MetaV) and isinstance(dk_.tag, str) and dk_.tag.startswith("dt:"):
             # torch.empty(x.shape, dtype=x.dtype, device=x.device): a fresh tensor with the dtype of a pipeline tensor
@@ -1119,6 +1123,17 @@ class PipeOps(FullOps):
 
     def call_vmap(self, f, args, kwargs, node, env):
         self.pev("vmap_call", node)
+        if self.inst is not None:
+            # instance runs: vmap's own chunk_size against the number of rows of the block it is applied to
+            rec = getattr(self, "_vmap_chunks", {}).get(id(f))
+            rows_ = None
+            for a in args:
+                for x in ((a.items if a.items is not None else [a.elem]) if isinstance(a, ListV) else [a]):
+                    sp_ = self.rows_of(x) if isinstance(x, TV) else None
+                    if sp_ is not None:
+                        rows_ = self.span_len(sp_)
+            if rec is not None and rec[0] is f and rec[2]:
+                self.pev("vmap_chunk_vs_rows", node, chunk=rec[1], rows=rows_)
         new_args = []
         for a in args:
             if isinstance(a, ListV):
